@@ -323,6 +323,11 @@ void xcm_tp_set_bool_attr(const void *buf, size_t len, bool *value)
 
 int xcm_tp_get_bool_attr(bool value, void *buf, size_t capacity)
 {
+    if (capacity < sizeof(bool)) {
+	errno = EOVERFLOW;
+	return -1;
+    }
+
     memcpy(buf, &value, sizeof(bool));
 
     return sizeof(bool);
@@ -335,6 +340,11 @@ void xcm_tp_set_double_attr(const void *buf, size_t len, double *value)
 
 int xcm_tp_get_double_attr(double value, void *buf, size_t capacity)
 {
+    if (capacity < sizeof(double)) {
+	errno = EOVERFLOW;
+	return -1;
+    }
+
     memcpy(buf, &value, sizeof(double));
 
     return sizeof(double);
